@@ -19,8 +19,10 @@ EXTENDS CacheOps, TLC, TLCExt, Json, IOUtils
 
 Traces == ndJsonDeserialize(IOEnv.TRACE_FILE)
 
-VARIABLES tid, l, W, st
-vars == <<tid, l, W, st>>
+VARIABLES tid, l, W, st,
+          O,           \* who holds which test with which content, as observed on the real objects
+          iso          \* did the call just made leave the inputs of all other chromosomes alone
+vars == <<tid, l, W, st, O, iso>>
 
 CodeFaults == AllFaults
 NoFaults == {}
@@ -75,8 +77,20 @@ VerdictAgrees(e, v) == /\ e.reg = v.reg /\ e.raised = v.raised /\ (ObsStale(e) =
 
 Slotted(w, e) == e.op = "smut" => Cardinality(FreeT(w)) >= Len(e.out.added)
 
+\* the observed holdings: per test slot alive / owner / content version, per suite slot alive / members
+HoldT(o) == [alive |-> o.al, owner |-> o.ow, c |-> o.c]
+HoldS(o) == [alive |-> o.al, mem |-> o.mem]
+NoHoldT == [alive |-> FALSE, owner |-> 0, c |-> 0]
+NoHoldS == [alive |-> FALSE, mem |-> <<>>]
+Hold0(w) == [t |-> [i \in 1..w.nt |-> IF Has(w.t, i) THEN HoldT(Pick(w.t, i)) ELSE NoHoldT],
+             s |-> [j \in 1..w.ns |-> IF Has(w.s, j) THEN HoldS(Pick(w.s, j)) ELSE NoHoldS]]
+\* ... after event e: the chromosomes listed in tp / sp have the recorded state
+Observe(w, e) == [t |-> [i \in DOMAIN w.t |-> IF Has(e.tp, i) THEN HoldT(Pick(e.tp, i)) ELSE w.t[i]],
+                  s |-> [j \in DOMAIN w.s |-> IF Has(e.sp, j) THEN HoldS(Pick(e.sp, j)) ELSE w.s[j]]]
+
 Init == /\ tid \in 1..Len(Traces) /\ l = 0
         /\ W = Lift(Traces[tid].w0) /\ st = "ok"
+        /\ O = Hold0(Traces[tid].w0) /\ iso = TRUE
 
 Next == /\ l < Len(Traces[tid].ev)
         /\ l' = l + 1
@@ -89,6 +103,8 @@ Next == /\ l < Len(Traces[tid].ev)
               /\ st' = IF st # "ok" THEN "lost"
                        ELSE IF can /\ SameWorld(W, W1, e) /\ VerdictAgrees(e, r.v)
                             THEN "ok" ELSE "diverged"
+        /\ O' = Observe(O, Traces[tid].ev[l + 1])
+        /\ iso' = IsolatedP(O, O', ActOf(Traces[tid].ev[l + 1]))
         /\ UNCHANGED tid
 Spec == Init /\ [][Next]_vars
 
@@ -96,6 +112,13 @@ Spec == Init /\ [][Next]_vars
 \* fresh = -2: the from-scratch computation itself has no value (get_coverage without functions)
 NeverStale == (l > 0 /\ IsQuery(cur) /\ ~cur.raised /\ cur.fresh # -2) => cur.ret = cur.fresh
 QueryTotal == (l > 0 /\ IsQuery(cur) /\ cur.reg) => ~cur.raised
+
+(* ---- chromosomes own their test cases, on the observed objects (conformance with the design:
+        reported as drift; the C12 verdict on a shared test is NeverStale at the query that is served
+        the other chromosome's edit) ---- *)
+\* (that two suites hold the same test object -- ~OwnedP(O) -- is not reported by itself: it shows
+\*  here as soon as a call on one of them edits the shared test)
+Isolated == iso
 
 (* ---- the design model explains every observed call (drift if not) ---- *)
 ModelFollows == st # "diverged"
